@@ -42,8 +42,15 @@ TRUSTED = [
     "fixed list of files and return a fixed nesting of values",
 ]
 ASSUMPTIONS = [
-    "local filesystem, regular files, no symlinks / hidden names / permission errors; paths from a fixed universe of 17 "
-    "file paths; file paths and directory paths are disjoint",
+    "local filesystem, no permission errors; paths from a fixed universe of 26 file paths; file paths and directory paths "
+    "are disjoint",
+    "the model's directory listing is abstract (the universe paths below a directory that currently exist). The harness "
+    "takes as 'the members of a Dir / FileSet' what a recursive glob enumerates: regular files, also those reached through "
+    "a symlink to a directory (target outside the tree, or a hidden directory inside it) or through a symlink to a file, "
+    "named by the path through the link; names with a leading dot and dangling links are not members. The trees contain "
+    "such links, nested real directories and hidden files/dirs; link targets are never named directly by a value (no "
+    "aliasing of two universe paths); the correspondence compares redun's listing (through the recorded hash pre-images) and "
+    "the real tree with this reading",
     "external leaves are the 9 file classes and Staging values; Handle leaves are not generated here (handle validity "
     "is C25's subject)",
     "workflows make(), consume(make()) and outer() whose result is the call expression inner(x=<container of the values>) "
@@ -89,7 +96,29 @@ SUBS = [("d1", "s"), ("d2", "s"), ("d3", "s")]
 U = [("f",), ("g",)]
 for _d in TOPS:
     U += [_d + (x,) for x in "abc"] + [_d + ("s", x) for x in "ac"]
+# members reached only through symbolic links, and a deeper real directory:
+#   dX/l        -> <ext>/LX            (symlink to a directory outside the tree)          members dX/l/a, dX/l/c
+#   d2/s/l      -> <root>/.store2      (symlink to a hidden directory inside the tree)    member  d2/s/l/a
+#   d3/lf       -> <ext>/F3            (symlink to a file; dangling while the file is missing)
+#   d1/s/t/a                           (nested real directories)
+# hidden files d1/.h and d2/.hd/x exist and are edited by histories, but are never members (glob skips dot names)
+for _d in TOPS:
+    U += [_d + ("l", x) for x in "ac"]
+U += [("d2", "s", "l", "a"), ("d3", "lf"), ("d1", "s", "t", "a")]
+HIDDEN = [("d1", ".h"), ("d2", ".hd", "x")]
 DATA = [b"", b"a", b"b", b"ab", b"ba", b"abc", b"hello world"]
+
+
+def prepare_tree(w):
+    import os
+    for d in TOPS:
+        os.makedirs(os.path.join(w.ext, "L" + d[0]))
+        w.link(d + ("l",), os.path.join(w.ext, "L" + d[0]))
+    os.makedirs(os.path.join(w.root, ".store2"))
+    w.link(("d2", "s", "l"), os.path.join(w.root, ".store2"))
+    w.link(("d3", "lf"), os.path.join(w.ext, "F3"))
+    for h in HIDDEN:
+        w.xwrite(h, b"hidden", 900)
 SHAPES = ["single", "list", "tuple", "dict", "nested", "dataclass"]
 
 
@@ -166,11 +195,18 @@ def tasks():
             vals = [o[1] if o[0] == "plain" else w.make(o) for o in outs]
             return build(shape, vals)
 
-        def make(case_id: str, writes: tuple, outs: tuple, shape: str):
-            return body(case_id, writes, outs, shape)
+        # the task description travels as ONE json string: redun hashes arguments by pickling them, and a pickle of nested
+        # tuples depends on which sub-objects are shared (memo), which changes when an expression is replayed from the
+        # cache — pickle-identity sensitivity is C16's subject, not this check's
+        def unpack(spec_json):
+            d = dec(json.loads(spec_json))
+            return d["writes"], d["outs"], d["shape"]
 
-        def make_shallow(case_id: str, writes: tuple, outs: tuple, shape: str):
-            return body(case_id, writes, outs, shape)
+        def make(case_id: str, spec_json: str):
+            return body(case_id, *unpack(spec_json))
+
+        def make_shallow(case_id: str, spec_json: str):
+            return body(case_id, *unpack(spec_json))
         def consume(case_id: str, x, shape: str, n: int):
             _S["ccount"] += 1
             w = _S["world"]
@@ -181,8 +217,9 @@ def tasks():
             return [observe(w, o) for o in flatten(shape, n, x)]
         inner_t = task(namespace="verif_gj_c04", name="inner")(inner)
 
-        def outer(case_id: str, writes: tuple, outs: tuple, shape: str):
+        def outer(case_id: str, spec_json: str):
             # the RESULT of this task is a call expression whose keyword argument carries the values, nested in `shape`
+            writes, outs, shape = unpack(spec_json)
             return inner_t(case_id, shape, len(outs), x=body(case_id, writes, outs, shape))
         _S["tasks"] = {
             "outer": task(namespace="verif_gj_c04", name="outer")(outer),
@@ -200,9 +237,9 @@ def gen_leaf(rng):
     if k < 0.45:
         return ("file", fam, rng.choice(U))
     if k < 0.68:
-        return ("dir", fam, rng.choice(TOPS + TOPS + SUBS))
+        return ("dir", fam, rng.choice(TOPS + TOPS + TOPS + SUBS + [("d1", "l"), ("d2", "s", "l"), ("d1", "s", "t")]))
     if k < 0.82:
-        return ("fset", fam, rng.choice(TOPS + SUBS), rng.random() < 0.5)
+        return ("fset", fam, rng.choice(TOPS + SUBS + [("d3", "l")]), rng.random() < 0.5)
     if k < 0.88:
         return ("staging", rng.random() < 0.5, fam, rng.choice(U), rng.choice(U))
     return ("plain", rng.randrange(5))
@@ -243,6 +280,8 @@ def gen_case(rng, nsteps):
     for _ in range(nsteps):
         k = rng.random()
         p = rng.choice(interesting) if rng.random() < 0.85 else rng.choice(U)
+        if rng.random() < 0.06:
+            p = rng.choice(HIDDEN)
         t = rng.choice([clock[0], clock[0], clock[0] + 1, clock[0] - 1, 1500, rng.randrange(1000, 3000)])
         if k < 0.45:
             clock[0] += rng.choice([1, 5, 10])
@@ -330,6 +369,22 @@ CORPUS = [
      [("run", 2000), ("run", 2001), ("xtouch", ("d2", "a"), 2500), ("run", 2002), ("xwrite", ("d2", "c"), b"", 2002), ("run", 2003), ("run", 2004)]),
     (S([(("f",), b"abc")], [("file", "plain", ("f",)), ("file", "imm", ("g",))], "tuple", "full", "expr"),
      [("run", 2000), ("xwrite", ("f",), b"cba", 2000), ("run", 2001), ("xwrite", ("f",), b"cba", 2001), ("run", 2002), ("run", 2003)]),
+    # members that are reached only through a symlinked sub-directory (outside target; hidden in-tree target), a symlinked
+    # file, nested real directories, hidden files: rewrite / truncate / delete / recreate behind the link
+    (S([(("d1", "a"), b"a"), (("d1", "l", "a"), b"ab")], [("dir", "plain", ("d1",))], "single"),
+     [("run", 2000), ("run", 2001), ("xwrite", ("d1", "l", "a"), b"changed", 2001), ("run", 2002), ("run", 2003),
+      ("xremove", ("d1", "l", "a")), ("run", 2004), ("xtrunc", ("d1", "l", "a"), 2004), ("run", 2005), ("xwrite", ("d1", ".h"), b"x", 2005),
+      ("run", 2006), ("xwrite", ("d1", "l", "c"), b"new", 2006), ("run", 2007), ("run", 2008)]),
+    (S([(("d2", "s", "l", "a"), b"ab"), (("d2", "a"), b"a")], [("plain", 1), ("dir", "content", ("d2",))], "nested", "full", True),
+     [("run", 2000), ("xwrite", ("d2", "s", "l", "a"), b"abcd", 2000), ("run", 2001), ("run", 2002), ("xremove", ("d2", "s", "l", "a")),
+      ("run", 2003), ("xwrite", ("d2", ".hd", "x"), b"", 2003), ("run", 2004)]),
+    (S([(("d3", "lf"), b"abc"), (("d3", "l", "c"), b"c")], [("dir", "plain", ("d3",)), ("file", "content", ("d3", "lf"))], "dict", "shallow"),
+     [("run", 2000), ("run", 2001), ("xremove", ("d3", "lf")), ("run", 2002), ("xwrite", ("d3", "lf"), b"zzz", 2002), ("run", 2003),
+      ("xtouch", ("d3", "l", "c"), 2500), ("run", 2004), ("run", 2005)]),
+    (S([(("d1", "s", "t", "a"), b"a"), (("d1", "l", "c"), b"c")], [("dir", "plain", ("d1", "s")), ("dir", "plain", ("d1", "l")),
+                                                                     ("fset", "content", ("d1",), True)], "dataclass", "full", "expr"),
+     [("run", 2000), ("xwrite", ("d1", "s", "t", "a"), b"ab", 2000), ("run", 2001), ("xwrite", ("d1", "l", "c"), b"d", 2001), ("run", 2002),
+      ("xremove", ("d1", "l", "c")), ("run", 2003), ("run", 2004)]),
     # one invalid leaf deep in a container is enough
     (S([(("f",), b"a"), (("g",), b"b")], [("file", "imm", ("f",)), ("plain", 3), ("file", "plain", ("g",))], "nested", "shallow"),
      [("run", 2000), ("run", 2001), ("xtrunc", ("g",), 2001), ("run", 2002), ("run", 2003)]),
@@ -410,11 +465,13 @@ def is_ext(w, obj):
 
 def run_case(ctx, w, sched, case_id, spec, steps, replies, label):
     w.reset()
+    prepare_tree(w)
     w.struct_of.clear()
     w.bytes_of.clear()
     case = {"spec": enc(spec), "steps": enc(steps), "label": label}
     t = tasks()[spec["variant"]]
     n = len(spec["outs"])
+    spec_json = json.dumps(enc({"writes": spec["writes"], "outs": spec["outs"], "shape": spec["shape"]}), sort_keys=True)
     it = iter(replies)
     next(it)
     exec_states = set()    # the harness's own view (size/mtime/bytes/membership, no redun hash involved) of what the returned
@@ -429,9 +486,9 @@ def run_case(ctx, w, sched, case_id, spec, steps, replies, label):
             before, cbefore = _S["count"], _S["ccount"]
             try:
                 if spec.get("chain") == "expr":
-                    expr = tk["outer"](case_id, spec["writes"], spec["outs"], spec["shape"])
+                    expr = tk["outer"](case_id, spec_json)
                 else:
-                    expr = t(case_id, spec["writes"], spec["outs"], spec["shape"])
+                    expr = t(case_id, spec_json)
                 if spec.get("chain") is True:
                     expr = tk["consume"](case_id, expr, spec["shape"], n)
                 res = sched.run(expr)
